@@ -60,7 +60,7 @@ def prune_opts(rng, kd=3600, allow_instant=True, allow_early=False):
 def rand_cfg(rng):
     cfg = {"chunk": 64, "pack": rng.choice([100, 200, 300, 600, 2000])}
     r = rng.random()
-    if r < 0.25:
+    if r < 0.2:
         cfg["version"] = 1
     elif r < 0.5:
         cfg["compression"] = rng.choice([-5, 0, 1, 3, 19])
